@@ -10,6 +10,7 @@ import (
 	"flag"
 	"fmt"
 	"os"
+	"regexp"
 	"runtime/debug"
 	"strings"
 	"time"
@@ -72,7 +73,7 @@ func (w *Writer) Run(in interface{}, fn func() (interface{}, error)) {
 	func() {
 		defer func() {
 			if r := recover(); r != nil {
-				c.Panic = fmt.Sprintf("%v | %s", r, shortStack())
+				c.Panic = addrRe.ReplaceAllString(fmt.Sprintf("%v | %s", r, shortStack()), "0x?")
 				w.panics++
 			}
 		}()
@@ -91,6 +92,9 @@ func (w *Writer) Run(in interface{}, fn func() (interface{}, error)) {
 	w.w.Write(b)
 	w.w.WriteByte('\n')
 }
+
+// addresses differ from run to run; the recorded panic text must be reproducible for replay
+var addrRe = regexp.MustCompile(`0x[0-9a-fA-F]+\??`)
 
 func shortStack() string {
 	var keep []string
